@@ -319,7 +319,7 @@ namespace AIToolbox::MDP {
         // we check different from rewards_, rather than zero, because it's
         // possible that by averaging some rewards go BACK to zero, rather than
         // away from it. In those case we still have to set the new rewards to zero.
-        if (checkDifferentSmall(rewards_.coeffRef(s, a), experience_.getReward(s, a)))
+        if (rewards_.coeff(s, a) != experience_.getReward(s, a))
             rewards_.coeffRef(s, a) = experience_.getReward(s, a);
 
         // Clear beginning's identity matrix
@@ -354,7 +354,7 @@ namespace AIToolbox::MDP {
         // we check different from rewards_, rather than zero, because it's
         // possible that by averaging some rewards go BACK to zero, rather than
         // away from it. In those case we still have to set the new rewards to zero.
-        if (checkDifferentSmall(rewards_.coeffRef(s, a), experience_.getReward(s, a)))
+        if (rewards_.coeff(s, a) != experience_.getReward(s, a))
             rewards_.coeffRef(s, a) = experience_.getReward(s, a);
 
         if ( visitSum == 1ul ) {
